@@ -2,7 +2,7 @@ import SqlVerif.Lemmas.TclDefs
 /-!
 Parse → print → parse fixpoint (C01) on `Model/Tcl.lean`, the statements that are not transaction
 statements: `DISCARD`, `DEALLOCATE`, `CLOSE`, `USE`, and the results of `parseSet` with `Stmt.fixKind`
-(`SET ROLE`, `SET NAMES DEFAULT`, `SET TRANSACTION` / `SET SESSION CHARACTERISTICS AS TRANSACTION`): parsing the
+(`SET ROLE`, `SET NAMES DEFAULT`, `SET NAMES charset [COLLATE collation]`, `SET TRANSACTION` / `SET SESSION CHARACTERISTICS AS TRANSACTION`): parsing the
 printed tokens of an accepted statement gives `Stmt.norm`.  The printed lists are explicit, the parser is
 evaluated on them; keyword tests between closed tokens are `decide +kernel` facts (`mx_head_*`, `mx_set_kws`,
 `mx_set_names`).  The transaction-mode loop is taken as hypotheses `hmodes` / `htoks` (`Lemmas/TclFixTx.lean`).
@@ -507,6 +507,65 @@ theorem fixMisc_setNamesDefault (c : TCfg) (f d : Nat) (kw : Tok) (md colon name
   simp only [namesBranch, mx_set_names, hd, Bool.and_self, if_true, parseSetNames, mx_eatKw_cons, mx_default,
     SetTarget.toks, Stmt.norm]
 
+-- ------------------------------------------------------------------ SET NAMES charset [COLLATE collation]
+/-- the token `Display` writes for a charset / collation name: an unquoted word that is no keyword, or a '…' string;
+either way it holds the text of the name -/
+theorem mx_namesPart_tok (sp : Bool) (t : Tok) :
+    (namesPartPiece sp t).tok = .word (litValue t) none none ∨ (namesPartPiece sp t).tok = .sqs (litValue t) := by
+  unfold namesPartPiece
+  split
+  · left; rfl
+  · right; rfl
+
+/-- `parse_literal_string` takes the printed name -/
+theorem mx_literalString_part (sp : Bool) (t : Tok) (r : List Tok) :
+    literalString ((namesPartPiece sp t).tok :: r) = .ok ((namesPartPiece sp t).tok, r) := by
+  rcases mx_namesPart_tok sp t with h | h <;> rw [h] <;> rfl
+
+theorem mx_part_isKw (sp : Bool) (t : Tok) (k : Nat) : (namesPartPiece sp t).tok.isKw k = false := by
+  rcases mx_namesPart_tok sp t with h | h <;> rw [h] <;> rfl
+
+theorem mx_part_ne_period (sp : Bool) (t : Tok) : (namesPartPiece sp t).tok ≠ .sym .Period := by
+  rcases mx_namesPart_tok sp t with h | h <;> rw [h] <;> intro h' <;> cases h'
+
+theorem mx_collate : (kwT "COLLATE").isKw TK.COLLATE = true := by decide +kernel
+
+/-- the printed ` COLLATE name` is read back as it is -/
+theorem mx_collatePart_norm (co : List Tok) : collatePart (collateNorm co) = .ok (collateNorm co, []) := by
+  unfold collateNorm
+  cases co.getLast? with
+  | none => rfl
+  | some t =>
+    simp only [collatePart, mx_eatKw_cons, mx_collate, if_true, mx_literalString_part]
+
+theorem mx_setNames_toks (kw : Tok) (md colon name : List Tok) (cs : Tok) (co : List Tok) :
+    (Stmt.setNames kw md colon name cs co).showToks =
+      kwT "SET" :: plainW "NAMES" :: (namesPartPiece true cs).tok :: collateNorm co := by
+  simp only [Stmt.showToks, Stmt.pieces, collatePieces, collateNorm]
+  cases co.getLast? <;> rfl
+
+/-- `SET NAMES charset [COLLATE collation]`: whatever the source tokens were, the printed names are one word or one
+'…' string each and are read back as such -/
+theorem fixMisc_setNames (c : TCfg) (f d : Nat) (kw : Tok) (md colon name : List Tok) (cs : Tok) (co : List Tok)
+    (hd : (c.x.d.isMySql || c.x.d.isGeneric) = true) :
+    parseStmt c f (d + 1) (Stmt.setNames kw md colon name cs co).showToks =
+      .ok ((Stmt.setNames kw md colon name cs co).norm, []) := by
+  rw [mx_setNames_toks, mx_dispatch_set]
+  have h0 := mx_set_var_eval c f d [] (plainW "NAMES") ((namesPartPiece true cs).tok :: collateNorm co)
+    (mx_md_none _ _ (mx_plainW_isKw _ _) (mx_plainW_isKw _ _) (mx_plainW_isKw _ _)) mx_hivevar_nil (mx_plainW_isKw _ _)
+  simp only [List.nil_append] at h0
+  rw [h0]
+  have ht := mx_setTarget_word c f (plainW "NAMES") ((namesPartPiece true cs).tok :: collateNorm co)
+    (mx_plainW_isKw _ _) (mx_plainW_isSym _ _)
+    (by
+      simpa [nameElem] using mx_objectName_one [] (plainW "NAMES") (namesPartPiece true cs).tok (collateNorm co)
+        (mx_plainW_ident _) (mx_part_ne_period _ _))
+    mx_set_names.2.2.2.2.2.2.2.2.1
+  unfold parseSetVar
+  rw [ht]
+  simp only [namesBranch, mx_set_names, hd, Bool.and_self, if_true, parseSetNames, mx_eatKw_cons, mx_part_isKw,
+    Bool.false_eq_true, if_false, mx_literalString_part, mx_collatePart_norm, SetTarget.toks, Stmt.norm]
+
 -- ------------------------------------------------------------------ SET TRANSACTION
 /-- the printed modes are nothing, or begin with `READ` / `ISOLATION` -/
 theorem mx_modes_head (ms : Sep TMode) :
@@ -626,7 +685,7 @@ theorem fixMisc_set (c : TCfg) (f d : Nat) (kw : Tok) (ts rest : List Tok) (s : 
             · split at h
               · simp at h
               · simp at h; obtain ⟨rfl, rfl⟩ := h
-                simp [Stmt.fixKind] at hk
+                exact fixMisc_setNames c f d _ _ _ _ _ _ hd
         · split at h
           · unfold parseSetValues at h
             split at h
